@@ -68,8 +68,9 @@ class DataSaver(BaseLearner):
     @copy_docstring_from(BaseLearner.tell)
     def tell(self, x: Any, result: Any) -> None:
         y = self.arg_picker(result)
-        self.extra_data[x] = result
+        # first the learner: a point or value it rejects must not leave a result behind
         self.learner.tell(x, y)
+        self.extra_data[x] = result
 
     @copy_docstring_from(BaseLearner.tell_pending)
     def tell_pending(self, x: Any) -> None:
